@@ -3173,9 +3173,43 @@ class Inliner:
             self.report['desugared'] = prog.desugared
         self._finish_moves()
         self._drop_unreferenced(cands)
+        if self._plain_record_subclasses():
+            prog.reindex()
+            k = erase_new_records(prog, known_constants(), tbl.get('attr_reads'))
+            if k:
+                self.report['erased_records'] = list(self.report.get('erased_records') or []) + list(k)
+                prog.reindex()
         self._condition_locals()
         prog.reindex()
         return self.report
+
+    def _plain_record_subclasses(self):
+        """`class R(namedtuple('R', fields)):` whose methods have all been inlined away (docstring and `__slots__ = ()` are what is left)
+        is the record `R = namedtuple('R', fields)`"""
+        n = 0
+        for m in self.prog.modules.values():
+            for i, st in enumerate(list(m.tree.body)):
+                if not (isinstance(st, ast.ClassDef) and len(st.bases) == 1 and not st.keywords and not st.decorator_list
+                        and isinstance(st.bases[0], ast.Call) and src(st.bases[0].func).split('.')[-1] == 'namedtuple'
+                        and st.bases[0].args and isinstance(st.bases[0].args[0], ast.Constant) and st.bases[0].args[0].value == st.name):
+                    continue
+                if m.name + '.' + st.name in self.known_classes():
+                    continue
+                rest = [b for b in st.body if not (isinstance(b, ast.Pass) or (isinstance(b, ast.Expr) and isinstance(b.value, ast.Constant))
+                                                   or (isinstance(b, ast.Assign) and len(b.targets) == 1 and isinstance(b.targets[0], ast.Name)
+                                                       and b.targets[0].id == '__slots__'))]
+                if rest:
+                    continue
+                new = ast.Assign(targets=[ast.Name(id=st.name, ctx=ast.Store())], value=st.bases[0], type_comment=None)
+                ast.copy_location(new, st)
+                ast.fix_missing_locations(new)
+                m.tree.body[m.tree.body.index(st)] = new
+                self.report.setdefault('record_subclasses', []).append(m.name + '.' + st.name)
+                n += 1
+        return n
+
+    def known_classes(self):
+        return {q.rsplit('.', 1)[0] for q in self.known if q.count('.') >= 2}
 
     def _finish_moves(self):
         """calls of a moved function that inlining has brought into methods of the class it came from go through the wrapper"""
@@ -3243,16 +3277,27 @@ class Inliner:
 
     def _drop_unreferenced(self, cands):
         prog = self.prog
-        refs = {}
+        refs, arefs = {}, {}
         for m in prog.modules.values():
             for x in ast.walk(m.tree):
                 if isinstance(x, ast.Attribute):
                     refs[x.attr] = refs.get(x.attr, 0) + 1
+                    arefs[x.attr] = arefs.get(x.attr, 0) + 1
                 elif isinstance(x, ast.Name) and isinstance(x.ctx, ast.Load):
                     refs[x.id] = refs.get(x.id, 0) + 1
+                elif isinstance(x, ast.Constant) and isinstance(x.value, str) and x.value.isidentifier():
+                    arefs[x.value] = arefs.get(x.value, 0) + 1          # getattr(obj, 'name') and the like
         dropped = []
         for q, fi in cands.items():
-            if refs.get(fi.name, 0) == 0:
+            # a method is reached through an attribute (or, inside its class body, by its bare name); a bare name elsewhere - the builtin
+            # `reversed`, a local - is something else
+            if fi.cls is not None:
+                inside = sum(1 for x in ast.walk(fi.cls.node) if isinstance(x, ast.Name) and isinstance(x.ctx, ast.Load) and x.id == fi.name
+                             and not any(x in ast.walk(f) for f in fi.cls.node.body if isinstance(f, (ast.FunctionDef, ast.AsyncFunctionDef))))
+                unref = arefs.get(fi.name, 0) == 0 and inside == 0
+            else:
+                unref = refs.get(fi.name, 0) == 0
+            if unref:
                 holder = fi.cls.node if fi.cls is not None else fi.module.tree
                 if fi.node in holder.body:
                     holder.body.remove(fi.node)
